@@ -182,6 +182,12 @@ class C12(Check):
                         got=c[p].meta.num_records, want=int((pid == p).sum())))
                     break
         cobj.data -= 0.25
+        # using the catalog (trees are built in its cache) does not change what a later reopening reports
+        cat.build_trees(None, max_workers=1)
+        after_use = Catalog(tmp / "c", max_workers=1)
+        if not np.allclose(after_use.get_centers().data, given, rtol=0, atol=1e-15):
+            bad("alignment:reported-centres-change-after-trees-were-built", dict(got=after_use.get_centers().data.tolist(), want=given.tolist()))
+        check_catalog_meta(after_use, bad, counters, "reopened-after-build_trees")
         # catalog as patch_centers: second catalog inherits exactly these centres
         xyz2, pid2 = self._points(rng, centres, r * 0.7, rng.integers(1, 20, P))
         ra2, dec2 = gen.xyz_to_radec(xyz2)
@@ -263,7 +269,17 @@ class C12(Check):
         base = gen.rand_unit(rng, 1)[0]
         xyz = gen.cap_points(rng, base, r, int(rng.integers(300, 800)))
         ra, dec = gen.xyz_to_radec(xyz)
-        cat = cats.create(tmp / "c", cats.table(ra, dec), patch_num=P, probe_size=len(ra))
+        if case["seed"] % 2:
+            # random catalog with generated centres: same contract
+            from yaw import Catalog
+            from yaw.randoms import BoxRandoms
+
+            n_r = int(rng.integers(400, 1200))
+            cat = Catalog.from_random(tmp / "c", BoxRandoms(20.0, 26.0, -3.0, 3.0, seed=int(case["seed"] % 1000)), n_r,
+                                      patch_num=P, probe_size=max(60, n_r // 5), max_workers=1)  # centres from a sparse probe
+            ra = np.zeros(n_r)
+        else:
+            cat = cats.create(tmp / "c", cats.table(ra, dec), patch_num=P, probe_size=len(ra) if case["seed"] % 4 else max(60, len(ra) // 5))
         check_catalog_meta(cat, bad, counters, "generated")
         counters["alignment_checks"] = counters.get("alignment_checks", 0) + 1
         if list(cat.keys()) != list(range(P)):
@@ -293,6 +309,9 @@ class C12(Check):
         centres = cats.layout_centres(rng, P, r * 12.0)  # far apart: shifted copies cannot swap roles
         f = case["f"]
         cfg = Configuration.create(rmin=0.01, rmax=0.2, unit="deg", zmin=0.1, zmax=1.0, num_bins=2)
+        if case_bits(case, "large-scales") % 2 == 0:
+            # the refusal is about the catalogs, whatever scales are measured: here scales of several patch radii
+            cfg = Configuration.create(rmin=0.01, rmax=float(np.rad2deg(r)) * 4.0, unit="deg", zmin=0.1, zmax=1.0, num_bins=2)
 
         def mk(name, cen, n, z):
             xyz, _ = cats.points_around(rng, cen, n, r)
